@@ -20,6 +20,10 @@ pub fn predicate(name: &str, case: &Case, v: &Violation) -> bool {
                 None => false,
             }
         }
+        // The only corruption of the case zero-fills a sector (block trailer included).
+        "zero_filled_sector" => {
+            case.corruptions.len() == 1 && case.corruptions[0].kind == "zero512"
+        }
         other => {
             let _ = (case, v);
             eprintln!("HARNESS-ERROR unknown known-finding predicate {other}");
